@@ -636,8 +636,9 @@ Definition mon_step (kt kd : Z) (m : mst) (e : event) : option mst :=
   if m_wake m then (if k =? DV_FUTEX_WAKE then Some (mkM (m_last m) false) else None)
   else if k =? DV_LOAD then Some (mkM (Some (ea e)) false)
   else if k =? DV_OR then
-    if (eb e =? DSF_CANCELED) || (eb e =? DQF_RELEASED) || (eb e =? DQF_BARRIER_BIT) || (eb e =? DQF_TARGETED) || (eb e =? DSF_WLH_CHANGED)
-    then Some m else None
+    (* the thread's own cancel / release: what it read before is stale, a callout or a write of the word needs a new read *)
+    if (eb e =? DSF_CANCELED) || (eb e =? DQF_RELEASED) then Some (mkM None false)
+    else if (eb e =? DQF_BARRIER_BIT) || (eb e =? DQF_TARGETED) || (eb e =? DSF_WLH_CHANGED) then Some m else None
   else if k =? DV_AND then
     if has (eb e) BIT_RELEASED && has (eb e) BIT_CANCELED && has (eb e) BIT_WAITER && has (eb e) BIT_NEEDS_EVENT && has (eb e) BIT_DELETED
     then Some m else None
